@@ -91,6 +91,56 @@ Theorem C06_determination_is_one_compare_and_swap : src_determination_is_cas = t
 Proof. reflexivity. Qed.
 Print Assumptions C06_determination_is_one_compare_and_swap.
 
+(* SEVERAL TOKENS BEHIND ONE GATEWAY AT THE SAME TIME (k activations of one node, n alternatives each, the steps of
+   all of them scheduled in any order): with a flag per activation every activation is a gateway of its own, so all
+   of the above holds of each of them — at most one winner, one continuation ... *)
+Theorem C06_one_winner_per_activation : forall b k n s, mreach true b k n s ->
+  length (acts s) = k /\ forall a g, nth_error (acts s) a = Some g ->
+    greach b n g /\ cnt isW (alts g) + cnt isC (alts g) <= 1 /\ conts g <= 1 /\ conts g = cnt isC (alts g).
+Proof.
+  intros b k n s H. destruct (activations_independent b k n s H) as [HL HR]. split; [exact HL|].
+  intros a g Hg. split; [exact (HR a g Hg)|]. exact (one_winner b n g (HR a g Hg)).
+Qed.
+Print Assumptions C06_one_winner_per_activation.
+
+(* ... and once an activation is decided and none of its alternatives is open any more, exactly one of its branches
+   has continued, exactly once *)
+Theorem C06_final_per_activation : forall k n s, mreach true true k n s ->
+  forall a g, nth_error (acts s) a = Some g -> first g = true ->
+  (forall i, i < n -> is_open (aget g i) = false) -> conts g = 1 /\ cnt isC (alts g) = 1.
+Proof.
+  intros k n s H a g Hg Hf Hc. destruct (activations_independent true k n s H) as [_ HR].
+  destruct (final n g (HR a g Hg) Hf Hc) as [A [B _]]. split; assumption.
+Qed.
+Print Assumptions C06_final_per_activation.
+
+(* with ONE flag for the node it is not so: two activations, one event — the second activation has no winner, its other
+   alternative stays parked for ever (the instance never completes) *)
+Theorem C06_one_winner_per_activation_refuted_with_a_flag_on_the_node :
+  exists s g, mexec false true (minit 2 2) path_shared_flag = Some s /\ nth_error (acts s) 1 = Some g /\ aget g 0 = Lost /\ aget g 1 = Parked /\ cnt isW (alts g) + cnt isC (alts g) = 0 /\ conts g = 0 /\ forall l, internal l = true -> mstep false true s (1, l) = None.
+Proof. exact refuted_shared_flag. Qed.
+Print Assumptions C06_one_winner_per_activation_refuted_with_a_flag_on_the_node.
+
+(* the variant the sources show: the variable the compare-and-swap decides on is declared inside the case that handles
+   one token's arrival *)
+Theorem C06_one_winner_per_activation_for_the_source_variant : forall k n s,
+  mreach src_determination_flag_per_activation (0 <? src_termchan_capacity) k n s ->
+  forall a g, nth_error (acts s) a = Some g ->
+    cnt isW (alts g) + cnt isC (alts g) <= 1 /\ conts g <= 1 /\   (first g = true -> (forall i, i < n -> is_open (aget g i) = false) -> conts g = 1).
+Proof.
+  intros k n s H a g Hg.
+  destruct (C06_one_winner_per_activation _ k n s H) as [_ HR]. destruct (HR a g Hg) as [_ [A [B _]]].
+  split; [exact A|]. split; [exact B|].
+  intros Hf Hc. exact (proj1 (C06_final_per_activation k n s H a g Hg Hf Hc)).
+Qed.
+Print Assumptions C06_one_winner_per_activation_for_the_source_variant.
+
+Example C06_two_activations_nonvacuous :
+  exists s, mexec true true (minit 2 2)
+    [(0, Deliver 0); (1, Deliver 0); (0, Cas 0); (1, Cas 0); (0, Notify); (1, Notify); (0, TakeNotice 1); (1, TakeNotice 1);
+     (0, Proceed); (1, Proceed)] = Some s /\ map alts (acts s) = [[Continued; Withdrawn]; [Continued; Withdrawn]] /\ map conts (acts s) = [1; 1].
+Proof. eexists. split; [vm_compute; reflexivity|]. vm_compute. auto. Qed.
+
 Example C06_nonvacuous :
   exists s, gexec true (ginit 3) [Deliver 1; Deliver 2; Cas 2; Notify; Cas 1; Notify; TakeNotice 0; Proceed; Deliver 0; Deliver 1] = Some s /\
     alts s = [Withdrawn; Lost; Continued] /\ conts s = 1.
